@@ -5318,14 +5318,13 @@ class PyCdlib:
             # El Torito entry could point at.
             raise pycdlibexception.PyCdlibInvalidInput('The El Torito boot file must not be empty')
 
+        bi_table = None
         if boot_info_table:
             orig_len = boot_dirrecord.get_data_length()
             bi_table = eltorito.EltoritoBootInfoTable()
             with inode.InodeOpenData(boot_dirrecord.inode, self.logical_block_size) as (data_fp, data_len):
                 bi_table.new(self.pvd, boot_dirrecord.inode, orig_len,
                              self._calculate_eltorito_boot_info_table_csum(data_fp, data_len))
-
-            boot_dirrecord.inode.add_boot_info_table(bi_table)
 
         system_type = 0
         if media_name == 'hdemul':
@@ -5335,6 +5334,25 @@ class PyCdlib:
                     raise pycdlibexception.PyCdlibInvalidInput('Could not read entire HD MBR, must be at least 512 bytes')
                 system_type = eltorito.hdmbrcheck(disk_mbr, sector_count,
                                                   bootable)
+
+        # Validate everything that can be refused before the first change is
+        # made: the parameters of the entry, and (for the first entry) the
+        # paths of the Boot Catalog in every namespace.
+        probe = eltorito.EltoritoEntry()
+        probe.new(sector_count, boot_load_seg, media_name, system_type, bootable)
+        if self.eltorito_boot_catalog is None:
+            probe_validation = eltorito.EltoritoValidationEntry()
+            probe_validation.new(platform_id)
+            probe_rrname = ''
+            if self.rock_ridge:
+                probe_rrname = 'boot.cat' if rr_bootcatname is None else rr_bootcatname
+            self._check_new_paths(bootcatfile, probe_rrname, joliet_bootcatfile,
+                                  udf_bootcatfile, False)
+        elif len(self.eltorito_boot_catalog.sections) == 31:
+            raise pycdlibexception.PyCdlibInvalidInput('Too many El Torito sections')
+
+        if bi_table is not None:
+            boot_dirrecord.inode.add_boot_info_table(bi_table)
 
         num_bytes_to_add = 0
         if self.eltorito_boot_catalog is not None:
